@@ -49,6 +49,23 @@ Theorem C06_header_full_exact :
   max_header_entries = (max_header_size - header_size) / entry_size.
 Proof. split; [|split]; [apply header_full_exact | apply header_full_exact | exact max_header_entries_def]. Qed.
 
+(* distinct entry lists give distinct headers *)
+Theorem C06_parse_entries_inj : forall bs1 bs2 h, wfbs bs1 -> wfbs bs2 ->
+  make_header bs1 = Some h -> make_header bs2 = Some h -> with_offsets bs1 0 = with_offsets bs2 0.
+Proof. exact parse_entries_inj. Qed.
+
+(* converse of verifyHeader: whenever Finalize succeeds, the packer's blobs are exactly what a header can
+   carry (lengths < 2^32, running offsets), the pack is non-empty and the header fits MaxHeaderSize *)
+Theorem C06_finalize_ok_wf :
+  forall (seal : sealer) (open : opener),
+    (forall n p, open n (seal n p) = Some p) -> (forall n p, len (seal n p) = len p + mac_size) ->
+  forall nonce p f,
+    finalize seal open nonce p = Ok f -> len nonce = nonce_size -> ids32 (p_blobs p) -> hdr_len (p_blobs p) < two32 ->
+    p_blobs p <> [] /\ hdr_len (p_blobs p) <= max_header_size /\
+    with_offsets (p_blobs p) 0 = p_blobs p /\
+    Forall (fun b => 0 <= b_len b < two32 /\ 0 <= b_ulen b < two32) (p_blobs p).
+Proof. exact finalize_ok_wf. Qed.
+
 (* the oracle run on the implementation's observables means the property *)
 Theorem C06_oracle_sound : forall c, check_C06 c = true -> C06_holds c.
 Proof. exact check_C06_sound. Qed.
@@ -63,5 +80,7 @@ Print Assumptions C06_list_ok_authentic.
 Print Assumptions C06_guarded_count.
 Print Assumptions C06_header_full_bound.
 Print Assumptions C06_header_full_exact.
+Print Assumptions C06_parse_entries_inj.
+Print Assumptions C06_finalize_ok_wf.
 Print Assumptions C06_oracle_sound.
 Print Assumptions C06_model_meets_oracle.
